@@ -12,7 +12,8 @@
     extracted ladders and hierarchy, is the routing the model functions implement
     (`invokeStep`, `runConditional`, `retryIter`, `runStepGroup`, `runFailureGroup`, `runGroups`,
     `pypeBody`, `runPipeline`, `runRoot`).
-  * `tables_agree`: truthy strings, back-off names, default group names.
+  * `tables_agree`: back-off names, default group names (the truthy-string rule is tied by translation:
+    `Props/Translated_C04.lean`).
 
   A source edit that changes a ladder or a table breaks these obligations even when no
   generated input reaches the changed clause.
@@ -182,21 +183,15 @@ theorem route_pipeline :
 
 /-- literal tables the models hard-code -/
 theorem tables_agree :
-    Generated.truthyStrings = ["true", "1", "1.0"] ∧
     Generated.builtinBackoffs.all (fun n => (Pypyr.BackoffKind.ofName? n).isSome) = true ∧
     Generated.builtinBackoffs.length = 6 ∧
     Generated.defaultGroup = "steps" ∧ Generated.defaultSuccessGroup = "on_success" ∧
     Generated.defaultFailureGroup = "on_failure" ∧ Generated.defaultBackoff = "fixed" := by
   decide +kernel
 
-/-- `castStrToBool` is membership of the lower-cased text in exactly that list -/
-theorem truthy_rule_agrees (s : String) :
-    Pypyr.castStrToBool s = Generated.truthyStrings.contains (Pypyr.lowerAscii s) := by
-  have h : Generated.truthyStrings = ["true", "1", "1.0"] := by decide +kernel
-  rw [h]
-  simp only [Pypyr.castStrToBool, List.contains, List.elem]
-  cases (Pypyr.lowerAscii s == "true") <;> cases (Pypyr.lowerAscii s == "1") <;>
-    cases (Pypyr.lowerAscii s == "1.0") <;> rfl
+/- The truthy-string rule of `cast_str_to_bool` is no longer tied through an extracted literal table: the
+   function itself is translated from the source on every run and proved equal to `castStrToBool` for every
+   string (`Props/Translated_C04.lean`, `translated_cast_str_to_bool_eq_model`). -/
 
 /-- and the model's defaulting rule uses exactly those names -/
 theorem default_groups_agree :
